@@ -863,6 +863,14 @@ hwloc__xml_import_object(hwloc_topology_t topology,
     goto error_with_object;
   }
 
+  /* the root must be a Machine, the core and the children import rely on its sets */
+  if (!parent && obj->type != HWLOC_OBJ_MACHINE) {
+    if (hwloc__xml_verbose())
+      fprintf(stderr, "%s: invalid root object type %s\n",
+	      state->global->msgprefix, hwloc_obj_type_string(obj->type));
+    goto error_with_object;
+  }
+
   /* check special types vs cpuset+nodeset */
   if ((!obj->cpuset || !obj->nodeset) && !hwloc__obj_type_is_special(obj->type)) {
     if (hwloc__xml_verbose())
